@@ -75,6 +75,10 @@ def gen_case(rng, tier):
             # a fine scan: the first parameter moves by a few parts per million only (it is still a swept parameter)
             v = 1.0 + rng.randint(0, 64) / 64.0
             g1 = [v, v + 5e-6, v + 10e-6][:len(g1)]
+        elif rng.random() < 0.35:
+            # axes of very different scale: a wavelength in metres against a parameter of order one
+            v = (1.2 + rng.randint(0, 32) / 64.0) * 1e-6
+            g1 = [v, v * 1.03125, v * 1.0625][:len(g1)]
         pts = [[a, b] for a in g1 for b in g2]
     else:
         g = distinct(rng.randint(2, 5))
